@@ -361,3 +361,20 @@ pub struct Prog {
     pub ctor: Ctor,
     pub ops: Vec<Op>,
 }
+
+/// Arguments of a `hest::GenericErrorData` (ACPI 6.5 Table 18.13, Generic Error Data Entry): every pub
+/// field the caller can assign plus the payload objects handed to `add_data`.
+#[derive(Clone, Debug)]
+pub struct ErrDataArg {
+    pub section_type: [u8; 16],
+    pub severity: u8,
+    pub revision: u16,
+    pub validation: u8,
+    pub flags: u8,
+    pub error_data_length: u32,
+    pub fru_id: [u8; 16],
+    pub fru_text: [u8; 20],
+    pub timestamp: [u8; 8],
+    /// payload: generic address structures (12 bytes each)
+    pub data: Vec<GasArg>,
+}
